@@ -23,7 +23,6 @@ use octo_squirrel::manager::shadowsocks::ServerUserManager;
 use octo_squirrel::protocol::address::Address;
 use octo_squirrel::protocol::shadowsocks::Mode;
 use octo_squirrel::protocol::shadowsocks::aead_2022::password_to_exact_keys;
-use octo_squirrel::protocol::shadowsocks::aead_2022::password_to_keys;
 use rand::random;
 use tcp::PayloadCodec;
 use tcp::ServerContext;
@@ -86,7 +85,12 @@ async fn startup_udp<const N: usize>(config: &ServerConfig<SslConfig>, user_mana
         return Ok(());
     }
     if config.mode.enable_udp() {
-        let (key, identity_keys) = password_to_keys(&config.password).map_err(|e| anyhow!(e))?;
+        // the same key derivation as on the tcp path: a legacy cipher takes an ordinary password
+        let (key, identity_keys): ([u8; N], Vec<[u8; N]>) = if config.cipher.is_aead_2022() {
+            password_to_exact_keys(&config.password).map_err(|e| anyhow!(e))?
+        } else {
+            (octo_squirrel::protocol::shadowsocks::aead::openssl_bytes_to_key(config.password.as_bytes()), Vec::new())
+        };
         let context = Context::new(Mode::Server, Some(user_manager.clone()), &key, &identity_keys);
         let codec = udp::new_codec::<N>(config, context)?;
         let inbound = UdpSocket::bind(format!("{}:{}", config.host, config.port)).await?;
